@@ -151,6 +151,7 @@ class Shadow:
                                 'extraction no longer matches the source' % (r.name, rel, n, r.count))
         # guard against the silent front-end deviation: any `auto` declaration the specific rules did not
         # rewrite gets the generic R-AUTO (decltype of the initialiser); anything still left aborts the run
+        text = re.sub(r'\bauto\s+const(\s+\w+\s*=)', r'const auto\1', text)   # east const: same type
         text, n = re.subn(r'((?:const\s+)?)auto(\s+)(\w+)\s*=\s*([^;]+);', _auto_repl, text)
         if n:
             fired['R-AUTO(generic)'] = n
